@@ -60,8 +60,10 @@ C15_THOROUGH = ([_h(f"c15::c15_interleave_{s}", timeout=2400, mem_gb=8, bound=f"
 MSA_FL = [n for n in NAMES if n.startswith("Minstarapproxi8")]
 MSA_HL = [n for n in NAMES if n.startswith("HLMinstarapproxi8")]
 _DEC_BOUND = "BOUNDED cross-check: fixed 2x3 (H1) / 3x4 (H2) matrix, all f64 LLRs with |x| <= 1e30, limit <= 2 (H1) / 1 (H2)"
-C01_KANI_QUICK = [_h(f"c01::c01_h1__{n}", timeout=2400, mem_gb=5, bound=_DEC_BOUND) for n in ["Minstarapproxi8", "HLMinstarapproxi8"]]
-C01_KANI_THOROUGH = ([_h(f"c01::c01_h1__{n}", timeout=3600, mem_gb=5, bound=_DEC_BOUND) for n in MSA_FL + MSA_HL]
+C01_KANI_QUICK = ([_h(f"c01::c01_h1__{n}", timeout=2400, mem_gb=5, bound=_DEC_BOUND) for n in ["Minstarapproxi8", "HLMinstarapproxi8"]]
+                  + [_h("c01::c01_check_llrs_small", bound="contract of check_llrs / hard_decisions (trusted in Verus) on the 2x3 and 3x4 matrices, every bit pattern")])
+C01_KANI_THOROUGH = ([_h("c01::c01_check_llrs_small", bound="contract of check_llrs / hard_decisions (trusted in Verus) on the 2x3 and 3x4 matrices, every bit pattern")]
+                     + [_h(f"c01::c01_h1__{n}", timeout=3600, mem_gb=5, bound=_DEC_BOUND) for n in MSA_FL + MSA_HL]
                      + [_h(f"c01::c01_h2__{n}", timeout=3600, mem_gb=6, bound=_DEC_BOUND) for n in ["Minstarapproxi8", "HLMinstarapproxi8"]])
 _HIST_BOUND = "BOUNDED: two-call histories on the fixed 2x3 matrix, limits (first, second) as named, all f64 LLRs with |x| <= 1e30"
 _SCR_B = "arithmetic scratch buffers, SURROGATE transcendental functions (under abstraction, not a proof), degree 3 then degree 2, |x| <= 100"
